@@ -167,7 +167,7 @@ func scenarioCfg(cfg *scenCfg) int {
 	w.f = counter.VerifNewFile()
 	w.c = w.f.NewCounter("c")
 
-	kind := Pick(rnd, []string{"plain", "open", "rot", "rot", "ext", "ext"})
+	kind := Pick(rnd, []string{"plain", "open", "rot", "rot", "ext", "ext", "grow", "grow"})
 	if cfg != nil {
 		kind = cfg.kind
 		out.Note("systematic-" + kind)
@@ -196,10 +196,25 @@ func scenarioCfg(cfg *scenCfg) int {
 				w.f.Lookup(strings.Repeat(string(rune('x'+i)), 4080))
 			}
 		}
+		if kind == "grow" {
+			// fill the first page so that the record of "c" itself does not fit:
+			// the first lookup of "c" by a lock holder extends the file inline
+			for i := 0; ; i++ {
+				room := 16384 - int(w.f.CurLimit())
+				if room <= 32 {
+					break
+				}
+				n := room - 32 - 16 // the record then ends 32 bytes before the page end
+				if n > 4080 {
+					n = 4080
+				}
+				w.f.Lookup(strings.Repeat(string(rune('A'+i%26)), n))
+			}
+		}
 		// concurrent registration (the lock-free list insertion) is outside the
 		// model: the counter is registered before the threads start
 		w.f.Register(w.c)
-		if (cfg == nil && rnd.Intn(3) > 0) || (cfg != nil && cfg.withPtr) {
+		if kind != "grow" && ((cfg == nil && rnd.Intn(3) > 0) || (cfg != nil && cfg.withPtr)) {
 			w.c.Add(int64(1 + rnd.Intn(4))) // has a pointer
 			preAdds = 1
 		}
@@ -228,6 +243,10 @@ func scenarioCfg(cfg *scenCfg) int {
 		}
 	case "ext":
 		specs = append(specs, tspec{"ext", 0})
+	case "grow":
+		if rnd.Chance(50) {
+			specs = append(specs, tspec{"rot", 0})
+		}
 	}
 	if cfg != nil {
 		specs = cfg.specs
@@ -261,6 +280,7 @@ func scenarioCfg(cfg *scenCfg) int {
 	lastWordOp := map[int]int{} // thread -> step number of its latest operation on the state word
 	closeStep := map[int]int{}  // closed region index -> step number at which it was closed
 	evSeen := 0
+	grew := 0
 	faultsKnown, faultsNew := 0, 0
 	allDone := func() bool {
 		for i := range specs {
@@ -336,6 +356,9 @@ func scenarioCfg(cfg *scenCfg) int {
 		}
 		stepNo++
 		after := w.observe()
+		if specs[i].kind == "add" && after.cur != before.cur {
+			grew++
+		}
 		for r := before.nclosed; r < after.nclosed; r++ {
 			closeStep[r] = stepNo
 		}
@@ -373,6 +396,9 @@ func scenarioCfg(cfg *scenCfg) int {
 			break
 		}
 	}
+	if grew > 0 {
+		out.Note("lookup-extended-the-file-inline")
+	}
 	faults := faultsKnown
 	if faults > 0 {
 		out.Note("use-after-unmap")
@@ -387,7 +413,7 @@ func scenarioCfg(cfg *scenCfg) int {
 		status = "panic"
 		fmt.Fprintln(os.Stderr, panicked)
 	}
-	fields := []string{"conc", kind, status, U(init0.word), I(init0.ptr), I(init0.cur), U(init0.persisted), I(int64(faults)), I(int64(faultsNew)), I(int64(len(specs)))}
+	fields := []string{"conc", kind, status, U(init0.word), I(init0.ptr), I(init0.cur), U(init0.persisted), B(kind == "grow"), I(int64(faults)), I(int64(faultsNew)), I(int64(len(specs)))}
 	for _, sp := range specs {
 		fields = append(fields, sp.kind, U(sp.amt))
 	}
@@ -398,6 +424,8 @@ func scenarioCfg(cfg *scenCfg) int {
 		fmt.Fprintln(os.Stderr, "----")
 	}
 	w.f.Close()
+	vatomic.ResetClosed()
+	counter.VerifConcRelease()
 	return nsteps
 }
 
@@ -410,6 +438,8 @@ func systematic(k int) {
 		{kind: "open", withPtr: true, specs: []tspec{{"add", 1}, {"add", 2}, {"rot", 0}}},
 		{kind: "rot", withPtr: false, specs: []tspec{{"add", 1}, {"add", 2}, {"rot", 0}}},
 		{kind: "plain", withPtr: true, specs: []tspec{{"add", 1}, {"add", 2}, {"add", 3}}},
+		{kind: "grow", withPtr: false, specs: []tspec{{"add", 1}, {"add", 2}, {"add", 3}}},
+		{kind: "grow", withPtr: false, specs: []tspec{{"add", 1}, {"add", 2}, {"rot", 0}}},
 	}
 	for _, b := range base {
 		c := b
